@@ -136,7 +136,10 @@ RefNormParts(u, o) ==
       trailing0 == Len(c0.path) > 1 /\ c0.path[Len(c0.path)] = 47
       p1 == StPath(c0).path
       p1n == IF p1 # <<>> /\ p1[Len(p1)] = 47 THEN SubSeq(p1, 1, Len(p1) - 1) ELSE p1      \* normpath: no trailing slash
-      p2 == IF trailing0 /\ ~o.ts /\ p1n # <<>> THEN p1n \o <<47>> ELSE p1n
+      \* unquote what is safe BEFORE the AMP / index rules look at the path ('index%2Ehtml' is an index page)
+      s1n == SplitOn(p1n, 47)
+      p1u == JoinWith([i \in 1..Len(s1n) |-> Unq("path", s1n[i])], 47)
+      p2 == IF trailing0 /\ ~o.ts /\ p1u # <<>> THEN p1u \o <<47>> ELSE p1u
       p3 == IF o.amp THEN AmpSuffix(p2) ELSE p2
       p4 == IF o.index THEN DropIndex(p3) ELSE p3
       p5 == IF o.ts THEN RStripChar(p4, 47) ELSE p4
